@@ -23,7 +23,7 @@ def loginTwoLookups (norm : String → String) (cfg : Config) (st : SessState)
     | some e =>
       let name := norm rawName
       let pw := norm rawPw
-      if (⟨pw, name, e.salt⟩ : HashTerm) ≠ e.hash then (.invalid, st) else
+      if StoredHash.term ⟨pw, name, e.salt⟩ ≠ e.hash then (.invalid, st) else
       -- second look-up: the normalised name
       match cfg.users.lookup name with
       | none => (.invalid, st)
